@@ -5,6 +5,7 @@ package sim
 // core crash). Effectful calls pass the boundary (gate, log, faults); Ping/Info/GetParams do not.
 
 import (
+	"sync/atomic"
 	"bytes"
 	"context"
 	"crypto/rand"
@@ -84,6 +85,9 @@ type Host struct {
 	script     func(c *Container) LambdaScript
 	copyB      func(id, path string) CopyBehaviour
 	down       bool
+	// FailCreateEvery > 0: every n-th VirtualizationCreate on this host is rejected (stress workloads)
+	FailCreateEvery int64
+	createN         int64
 	calls      map[string]int
 }
 
@@ -337,6 +341,9 @@ func (e *Engine) BuildContent(context.Context, coresource.Source, *enginetypes.B
 func (e *Engine) VirtualizationCreate(ctx context.Context, opts *enginetypes.VirtualizationCreateOptions) (*enginetypes.VirtualizationCreated, error) {
 	var created *enginetypes.VirtualizationCreated
 	err := e.gated(ctx, "VirtualizationCreate", opts.Name, func() error {
+		if n := atomic.LoadInt64(&e.host.FailCreateEvery); n > 0 && atomic.AddInt64(&e.host.createN, 1)%n == 0 {
+			return fmt.Errorf("memengine: create rejected (every %d-th)", n)
+		}
 		c := &Container{ID: newID(), Name: opts.Name, Labels: map[string]string{}, Image: opts.Image, User: opts.User, Env: append([]string(nil), opts.Env...),
 			EngineParams: opts.EngineParams, Lambda: opts.Lambda, Stdin: opts.Stdin, Ancestor: opts.AncestorWorkloadID, State: "created", Files: map[string]File{}, CreatedBy: InstOf(ctx)}
 		for k, v := range opts.Labels {
